@@ -34,6 +34,9 @@ CHECKS["C03"] = dict(engine="explorer", technique="exhaustive enumeration of tok
 CHECKS["C08"] = dict(engine="explorer", technique="exhaustive enumeration (viable-prefix DFS over token alphabets + literal payload tables) of parser-accepted documents; print/parse round-trip law checked on each",
    text="Every document the library parser accepts in the token enumeration (6 alphabets, 5-11 tokens) and 11 templates x every payload of up to 3 (4) units for quoted strings and block strings (quotes, backslashes, \\u0007, DEL, e-acute, U+1F600, triple quotes, CR/LF, tabs, indentation) in argument, default, directive-argument and description positions: print(ast) parses; the re-parsed AST is structurally identical; print is stable after one round; Print does not modify its input.",
    ref="5 C08", note="The parser itself is judged by C03.")
+CHECKS["C09"] = dict(engine="explorer", technique="exhaustive enumeration of request texts (viable-prefix token DFS, character-unit and byte strings) and of parser-accepted ASTs handed unvalidated to every entry point; termination decided by a deterministic step counter, not by time",
+   text="Every text of the token enumeration (6 alphabets, 3-10 tokens), every string of up to 4 (5) character units incl. BOM, e-acute, U+2028, U+0085, emoji, and up to 3 (4) raw bytes, alone and inside braces, goes to Do, Subscribe and PlanCache.Get (plain, normalising, nil); every parser-accepted AST goes unvalidated to ValidateDocument, PlanQuery, Execute, ExecuteSubscription and Print; 300+ fragment topologies with cycles through spreads and fields; variable maps holding 25 kinds of Go values; 14 zero-valued parameter calls. Oracle: no panic, call finishes within 400000 counted steps, result marshals to JSON, no data when parsing or validation failed, an error whenever data is absent.",
+   ref="5 C09", note="Step counter = instrumenter-inserted increments at every function entry and loop body of the library. A 3 s wall-clock wait is used only when reading subscription channels (no source involved).")
 NOT_YET = {}
 ALL = ["C%02d" % i for i in range(1, 21)]
 
